@@ -466,3 +466,35 @@ class attrmap_init:
                 else:
                     culprits.append(neg(hashable(arg)))
             yield "only-when-a-given-attribute-or-map-value-is-not-hashable", either(*culprits)
+
+
+# ---- AttrWrap: the single-attribute front end delegates to the map setters
+from urwid.widget import attr_wrap as _aw  # noqa: E402
+
+AW = "urwid/widget/attr_wrap.py:"
+AWOBJ = Obj(_aw.AttrWrap, dict(_original_widget=Opaque("Widget"), _attr_map=AMAP, _focus_map=Opt(AMAP)))
+
+
+def _wrap_setter(field, param):
+    class C:
+        self_shape = AWOBJ
+        params = {param: ATTRV}
+        raises = (_am.AttrMapError,)
+        modifies = (field,)
+
+        def ensures(old, s, a, result):
+            A = arb_attr()
+            yield "returns-none", result is None
+            yield "the-map-from-none-to-the-attribute-is-stored", _single_entry_at(val(s.fields[field]) if isinstance(s.fields[field], SOpt) else s.fields[field], getattr(a, param), A)
+            yield "invalidated-once", count_ev(s.trace, "_invalidate") == 1
+            yield "other-fields-untouched", both(*[_same_obj(s.fields[f], old.fields[f]) for f in ("_original_widget", "_attr_map", "_focus_map") if f != field])
+
+        def on_raise(old, s, a, exc):
+            yield "only-for-an-attribute-that-is-not-hashable", neg(hashable(getattr(a, param)))
+            yield "nothing-stored-nothing-invalidated", both(_same_obj(s.fields[field], old.fields[field]), count_ev(s.trace, "_invalidate") == 0)
+
+    return C
+
+
+wrap_set_attr = contract(AW + "AttrWrap.set_attr", property="C17", replayable=False)(_wrap_setter("_attr_map", "attr"))
+wrap_set_focus_attr = contract(AW + "AttrWrap.set_focus_attr", property="C17", replayable=False)(_wrap_setter("_focus_map", "focus_attr"))
